@@ -4,6 +4,7 @@ import (
 	"errors"
 	"fmt"
 	"reflect"
+	"strings"
 
 	"github.com/junioryono/godi/v4"
 	"github.com/junioryono/godi/v4/verifh/eng"
@@ -57,6 +58,14 @@ func runC17Initializers(c *eng.Ctx, next func() (int, bool)) {
 			w := &initWorld{runs: map[string]int{}}
 			initCur = w
 			coll := godi.NewCollection()
+			// ordinary services registered BEFORE the initializers (Build sorts the initializers out of
+			// its descriptor list: the collection's own list must not change by that)
+			if err := coll.AddSingleton(newInitSvc); err != nil {
+				panic(err)
+			}
+			if err := coll.AddTransient(newInitSvc2); err != nil {
+				panic(err)
+			}
 			if err := lf.add(coll, initA, godi.Name("x")); err != nil {
 				viol("valid-add-rejected", fmt.Sprintf("Add(initA, Name(x)): %v", err))
 				return
@@ -84,10 +93,17 @@ func runC17Initializers(c *eng.Ctx, next func() (int, bool)) {
 				for k := range w.runs {
 					delete(w.runs, k)
 				}
+				sigBefore, countBefore := sliceSig(coll), coll.Count()
 				p, err := coll.Build()
 				if err != nil {
 					viol("build-fails", fmt.Sprintf("%s: Build: %v", what, err))
 					return nil
+				}
+				if sig := sliceSig(coll); sig != sigBefore || coll.Count() != countBefore {
+					viol("build-changed-collection", fmt.Sprintf("%s: ToSlice / Count before Build: %s (%d); after: %s (%d)", what, sigBefore, countBefore, sig, coll.Count()))
+				}
+				if _, err := godi.Resolve[*initSvc](p); err != nil {
+					viol("build-uses-other-registrations", fmt.Sprintf("%s: the singleton registered first is not resolvable from the provider: %v", what, err))
 				}
 				// one fresh scope (scoped initializers run at scope creation; transient ones never by themselves)
 				if s, err := p.CreateScope(nil); err == nil {
@@ -136,4 +152,30 @@ func runC17Initializers(c *eng.Ctx, next func() (int, bool)) {
 		}()
 		c.R.End(idx, eng.Hash("c17-initializers", lf.name), true)
 	}
+}
+
+type initSvc struct{ n int }
+type initSvc2 struct{ n int }
+
+func newInitSvc() *initSvc   { return &initSvc{1} }
+func newInitSvc2() *initSvc2 { return &initSvc2{2} }
+
+// sliceSig renders ToSlice as a list of (type, key class, lifetime) in order.
+func sliceSig(coll godi.Collection) string {
+	var ps []string
+	for _, d := range coll.ToSlice() {
+		if d == nil {
+			ps = append(ps, "<nil>")
+			continue
+		}
+		k := "-"
+		if d.Key != nil {
+			k = fmt.Sprintf("%T", d.Key)
+			if s, ok := d.Key.(string); ok && (len(s) == 0 || s[0] != 'v') {
+				k = s
+			}
+		}
+		ps = append(ps, fmt.Sprintf("%v/%s/%v", d.Type, k, d.Lifetime))
+	}
+	return "[" + strings.Join(ps, " ") + "]"
 }
